@@ -80,7 +80,7 @@ BOUNDS = {
     "quick": "conversions x 5 entry points x {valid plain/prefixed/affine/compound/table/EM/identity, dimension mismatch, unknown unit, "
              "unparsable unit}; base conversions x 13 entry points x {plain, affine, compound, table, EM x2, irreducible x2, unknown "
              "system}; 22 equivalence routes x 4 entry points incl. invalid equivalence (source/target/name), bad kwarg, unknown "
-             "unit, offset unit; 12 binary operators + 6 augmented assignments + ** (5 forms x 12 exponent kinds) + 3 unary x "
+             "unit, offset unit; 12 binary operators + 6 augmented assignments + ** (6 forms x 13 exponent kinds) + 3 unary x "
              "operand variants {same unit, other scale, table pair, other dimension, quantity, bare number/array on either side, "
              "same object twice, offset guards, K/degC guard, logarithmic unit, non-dimensionless exponent}; 45 ufunc configurations x "
              "out in {none, fresh, other unit, bare ndarray, wrong shape, wrong shape in a commensurable other unit, wrong shape in another "
@@ -816,7 +816,10 @@ POWVARS = [
     ("pow_arr_unitful", "xa", "xs", "non-dimensionless exponent"),
     ("pow_arr_unitful_c", "xa", ("const", [2.0, 2.0], "xs"), "non-dimensionless exponent"),
     ("pow_offset", "xta", ("const", 2.0), "offset temperature"),
-    ("pow_dimless_base", "xd", ("const", [2.0, 3.0]), None),
+    # /repo 0ee5197: differing exponents are refused for a SCALED pure number too (xd has a symbolic scale: refused unless it is
+    # exactly 1); the unscaled pure number must return
+    ("pow_dimless_base", "xd", ("const", [2.0, 3.0]), "non-uniform exponent on a scaled pure number"),
+    ("pow_dimless_base_plain", "dimensionless", ("const", [2.0, 3.0]), None),
 ]
 NEEDS_NONZERO = ("truediv", "floordiv", "mod", "divmod")
 DISCONT = ("floor", "mod", "remainder", "sign", "rint", "around", "sin", "cos", "tan", "exp", "log", "arctan")  # + uninterpreted
